@@ -38,6 +38,13 @@
 //! aimed at it had its version burnt ("a no-effect final state changes nothing",
 //! tx.rs); two clauses that undo each other are not judged.
 //!
+//! `readers_overlap` (`c17/overlap.rs`) covers "never observed in part by any
+//! reader" and the in-flight half of "a dry run never changes anything": one
+//! world over a parking object store, each generated statement (real or dry run)
+//! runs as a task while reader tasks are let go after a chosen number of its
+//! backend calls; every answer a reader gets must be the answer of the state
+//! before the statement or (only after a commit) of the state after it.
+//!
 //! Three genuine defects were found with this check on the pinned tree and
 //! repaired in /repo (known_findings.json: fixed); their signatures stay:
 //! `SIG_DUP_TUPLE` (immediate: the worlds diverge), `SIG_SHELLS` and `SIG_BURNT`
@@ -47,10 +54,12 @@
 //! `VERIF_C17_TRACE=1` prints refusals the harness did not predict.
 
 mod check;
+mod overlap;
 mod stmt;
 mod world;
 
 use check::*;
+use overlap::{Flight, Overlap, Reader, run_overlap};
 use proptest::prelude::*;
 use serde::{Deserialize, Serialize};
 use stmt::*;
@@ -204,6 +213,26 @@ fn history_s(exclude_dup_tuple: bool) -> impl Strategy<Value = History> {
     prop::collection::vec(stmt_s(), 4..=20).prop_map(move |stmts| History { exclude_dup_tuple, stmts })
 }
 
+/// A reader: the number of backend calls of the statement after which it is let
+/// go (mostly small: a statement makes 2-100 of them; 0 = before the statement),
+/// how many more the statement makes between two backend reads of the reader,
+/// and 1-3 reads.
+fn reader_s() -> impl Strategy<Value = Reader> {
+    (prop_oneof![3 => 0u8..6, 4 => 0u8..24, 2 => 0u8..80, 1 => any::<u8>()], prop_oneof![3 => Just(0u8), 2 => 1u8..6, 1 => 1u8..40], prop::collection::vec(any::<u16>(), 1..=3)).prop_map(|(start_after, lag, probes)| Reader { start_after, lag, probes })
+}
+
+fn flight_s() -> impl Strategy<Value = Flight> {
+    (stmt_s(), prop_oneof![5 => Just(Mode::Real), 3 => Just(Mode::Dry), 3 => Just(Mode::DryThenReal), 2 => Just(Mode::Preview), 2 => Just(Mode::PreviewThenReal)], prop::collection::vec(reader_s(), 1..=3)).prop_map(|(mut stmt, mode, readers)| {
+        stmt.mode = mode;
+        stmt.resend = false;
+        Flight { stmt, readers }
+    })
+}
+
+fn overlap_s(exclude_dup_tuple: bool) -> impl Strategy<Value = Overlap> {
+    prop::collection::vec(flight_s(), 2..=6).prop_map(move |flights| Overlap { exclude_dup_tuple, flights })
+}
+
 // ---------------------------------------------------------------------------
 // regressions
 // ---------------------------------------------------------------------------
@@ -307,7 +336,8 @@ fn dup_tuple_defect_present() -> bool {
 }
 
 pub fn run(r: &mut Runner) {
-    r.assume("statements are executed one at a time through one system session; readers concurrent with a writer (lock-level interleavings of the nexus RwLock) are not explored by this check");
+    r.assume("`regressions` and `histories` execute one command at a time through one system session; readers concurrent with a statement are explored by `readers_overlap` (one statement or envelope dry run in flight, 1-3 readers let go after a chosen number of its backend calls; two statements in flight at once are not explored)");
+    r.assume("`readers_overlap` puts real statements, envelope dry runs (`options.dry_run`) and `PREVIEW KML` (for parameter-free statements) in flight; PREVIEW KML used to run under the shared side of the nexus lock, so a reader overlapping it saw the pending shells of its dry run (signature SIG_PREVIEW_IN_FLIGHT in c17/overlap.rs; repaired in /repo, listed as fixed)");
     r.assume("a row in state `pending` is by itself no violation (tx.rs documents shells as invisible and swept at open); it becomes one when a query, a META command or a later statement can tell it is there");
     r.assume("SEARCH relevance scores are not compared (they depend on corpus statistics); the set of hits is");
     r.assume("the idempotency key of a statement is journalled, a resend re-executes (DESCRIBE CAPABILITIES: recorded_not_replayed; pinned by tests/kml.rs)");
@@ -327,5 +357,26 @@ pub fn run(r: &mut Runner) {
         (560, 11_200),
         move || history_s(exclude),
         wrap(run_history),
+    );
+    r.sub_enum(
+        "readers_overlap_regressions",
+        "fixed input of a repaired defect: a one-clause `PREVIEW KML` in flight (held after 6 of its backend calls) while a reader asks for the `pending` concepts - the shells of the preview's dry run were visible while META held the nexus lock shared; non-trivial = always",
+        true,
+        vec![serde_json::from_str::<Overlap>(include_str!("c17/preview_in_flight.case.json")).expect("embedded case")],
+        {
+            let f = wrap(run_overlap);
+            move |c, ctx| {
+                let r = f(c, ctx);
+                ctx.nontrivial = true;
+                r
+            }
+        },
+    );
+    r.sub(
+        "readers_overlap",
+        "the seed block, then 2-6 generated statements (the generator of `histories`; 5/15 sent for real, 3/15 as a dry run, 3/15 as a dry run and then for real, 4/15 as PREVIEW KML (alone or followed by the real statement; parameter-free statements only, otherwise an envelope dry run)), each executed as one task of a single-threaded runtime over a parking object store while 1-3 reader tasks (sessions of the same nexus) each send 1-3 reads drawn from the C17 battery, the `{state: \"pending\"}` patterns, by-id reads of the next ids the statement would mint, counts and DESCRIBE SPACE / SNAPSHOT; the case fixes after how many backend calls of the statement each reader is let go (0 = before it begins) and how many more the statement makes between two backend reads of that reader (a held reader moves when the statement cannot: it waits for the lock), so the interleaving is owned and replayable; oracle: every answer a reader got equals the answer the same read gave before the statement or - only when the statement committed - after it, no read sent after an answer from the state after the commit is answered from the state before it, and a dry run / refused statement leaves the reads unchanged; non-trivial = at least one read overlapped the statement (sent before the statement answered and answered after its first backend call was released)",
+        (240, 6_000),
+        move || overlap_s(exclude),
+        wrap(run_overlap),
     );
 }
